@@ -49,6 +49,8 @@ def source_ver():
     v = 0
     if 'setLocatorsByUID(_iuidFactors' in method_body(SOURCE['CalcKrigingFactors'], 'void CalcKrigingFactors::_rollback()'): v |= 1
     if '_storeInVariableList' in method_body('src/Calculators/ACalcDbToDb.cpp', 'int ACalcDbToDb::_expandInformation('): v |= 2
+    if method_body('src/Calculators/ACalcDbToDb.cpp', 'void ACalcDbToDb::_restoreLocators('): v |= 4
+    if 'getUIDByColIdx' in method_body(SOURCE['CalcSimuPartition'], 'bool CalcSimuPartition::_poisson()'): v |= 8
     return v
 
 def S(s): return [ord(ch) for ch in s]
@@ -410,13 +412,16 @@ def simupost_scenarios(rng, quick):
 
 def simu1_scenarios(rng, quick):
     out = []
-    def mk(sub, p0=0, variant='std', natural=None, extra_ok=1):
+    def mk(sub, p0=0, variant='std', natural=None, extra_ok=1, intensity=3):
         dbout = grid_db((4, 4)); nc = NC('Tess')
-        sc = Sc(12, sub, [p0], nc, grid_db((2, 2)), dbout, variant=variant, natural=natural, nout=(0, 1), nbsimu=1, has_in=0,
+        sc = Sc(12, sub, [p0, intensity], nc, grid_db((2, 2)), dbout, variant=variant, natural=natural, nout=(0, 1), nbsimu=1, has_in=0,
+                mode=(1 if sub == 1 else 0),
                 mnvar=(1 if sub != 2 and p0 >= 0 else 0), mndim=(2 if sub != 2 and p0 >= 0 else 0), nndim=0, extra_ok=extra_ok)
         sc.nc_model = nc; sc.names = ['Tess', 'Tess.1', 'Tess.2']
         return sc
-    out.append(mk(0, variant='voronoi')); out.append(mk(1, variant='poisson')); out.append(mk(2, p0=2, variant='substitution'))
+    out.append(mk(1, variant='poisson')); out.append(mk(0, variant='voronoi')); out.append(mk(2, p0=2, variant='substitution'))
+    x = mk(1, intensity=0, variant='poisson-no-plane', natural='run'); x.run_fk = 3; out.append(x)
+    out.append(mk(2, p0=2, intensity=0, variant='substitution-no-point', natural='run'))
     out.append(mk(0, p0=-1, variant='voronoi-without-model', natural='check', extra_ok=0))
     return out
 
@@ -552,6 +557,10 @@ def key_of(sc, which, diffs, success):
     if base == 'external-drift' and which == 'in' and ('columns-left' in kinds or 'new-variable-count' in kinds):
         return calc + ':external-drift-expansion-left-in-dbin' 
     ts = [d[1][0] for d in diffs if d[0] == 'roles-changed']
+    if calc == 'CalcSimuEden' and 'values-changed' in kinds: return calc + ':input-variables-overwritten'
+    if calc == 'CalcSimuPartition' and base.startswith('poisson'):
+        if 'columns-left' in kinds or 'new-variable-count' in kinds: return calc + ':poisson-nested-simulation-left'
+        if 'columns-lost' in kinds or 'preexisting-columns-changed' in kinds or 'values-changed' in kinds: return calc + ':poisson-column-rank-used-as-uid'
     if calc == 'CalcKrigingFactors' and which == 'in' and not success:
         if 'columns-left' in kinds or L_X in ts: return calc + ':change-support-roles-not-restored'
         if L_Z in ts: return calc + ':factor-locators-not-restored'
@@ -584,7 +593,7 @@ EMPTY_DB = [0, 0, 0, [], [[] for _ in range(NLOC)]]
 def model_case(sc, bin_, bout, fs):
     sc.cfg['rb2'] = source_rb2(sc.name()); sc.cfg['ver'] = source_ver()
     din = model_db(bin_) if sc.cfg['has_in'] else EMPTY_DB
-    return [sc.id, cfg_sx(sc), sc.alias, fs, 1000, din, model_db(bout), getattr(sc, 'model_aux', [])]
+    return [sc.id, cfg_sx(sc), sc.alias, fs, getattr(sc, 'run_fk', 1000) if fs == 3 and sc.fail_after <= 0 and not (source_ver() & 8) else 1000, din, model_db(bout), getattr(sc, 'model_aux', [])]
 
 def cmp_model_db(md, before, after):
     """model's final Db (decoded sx) against the implementation's dump; returns list of differences"""
@@ -668,6 +677,9 @@ def run(ctx):
             print('ERROR: harness could not run scenario %s (ret %d)' % (ckey, ret)); sys.exit(3)
         bi, bo, ai, ao = Dump(r[2]), Dump(r[3]), Dump(r[4]), Dump(r[5])
         sc.res = (ret, last, bi, bo, ai, ao)
+        if sc.id == 13:     # fluid_propagation works in its input variables
+            names = {c[1]: c[0] for c in bo.cols}
+            sc.cfg['iuids'] = [names[US(a)] for a in sc.aux if US(a) in names]
         if sc.id == 10:     # krigingFactors: the factors are the Z-locator variables of dbin at the time of the call
             sc.cfg['iuids'] = list(bi.locs[L_Z]); sc.nout = (0, len(sc.cfg['iuids']) * (sc.cfg['est'] + sc.cfg['std']))
         if sc.id == 1:      # CalcMigrate: the entry points turn names / a locator into uids before the calculator starts
